@@ -49,6 +49,12 @@ static void add_binary_cases() {
     {"operator-(L,L)", [](SU_vector& a, SU_vector& b) { SU_vector r = a - b; use(r); }},
     {"operator-(R,L)", [](SU_vector& a, SU_vector& b) { SU_vector r = std::move(a) - b; use(r); }},
     {"operator*(scalar-product)", [](SU_vector& a, SU_vector& b) { sink += a * b; }},
+    {"scalar-product(proxy,proxy)", [](SU_vector& a, SU_vector& b) { sink += (2.0 * a) * (3.0 * b); }},
+    {"scalar-product(proxy,vector)", [](SU_vector& a, SU_vector& b) { sink += (2.0 * a) * b; }},
+    {"scalar-product(vector,proxy)", [](SU_vector& a, SU_vector& b) { sink += a * (-b); }},
+    {"scalar-product(sum-proxy,commutator-proxy)", [](SU_vector& a, SU_vector& b) { sink += (a + a) * ACommutator(b, b); }},
+    {"scalar-product(rvalue-vector,vector)", [](SU_vector& a, SU_vector& b) { sink += SU_vector(a) * b; }},
+    {"SUTrace<0>", [](SU_vector& a, SU_vector& b) { sink += squids::SUTrace<0>(a, b); }},
     {"iCommutator", [](SU_vector& a, SU_vector& b) { SU_vector r = iCommutator(a, b); use(r); }},
     {"ACommutator", [](SU_vector& a, SU_vector& b) { SU_vector r = ACommutator(a, b); use(r); }},
     {"ElementwiseOperation(L,L)", [sub](SU_vector& a, SU_vector& b) { SU_vector r = ElementwiseOperation(sub, a, b); use(r); }},
